@@ -13,18 +13,19 @@ func init() { register("C01", checkC01) }
 const (
 	rC01Loop  = "ORDABS.semi-naive-loop"
 	rC01Delta = "ORDABS.delta-rules"
-	rC01Prem  = "TABLE.premise-dispatch"
+	rC01Prem  = "ORDABS.premise-dispatch"
 	rC01Neg   = "ORDABS.negation"
 	rC01TX    = "TX.evaluators"
 	rC01Fld   = "TABLE.clause-field-completeness"
 	rC01Order = "ORDABS.strata-in-order"
+	rC01Eval  = "ORDABS.clause-evaluation"
 	rC01UF    = "ORDABS.substitutions"
 )
 
 func checkC01(c *core.Ctx) {
 	c.Rule(rC01Loop, "(*engine).eval is read from source and evaluated over abstract programs (unary predicates, copy/join/successor rules) with the premise join replaced by the program's own meaning and the stores by sets: whenever a delta rule runs the delta store is a subset of the store, the loop returns, and the final store equals the least model", 6)
 	c.Rule(rC01Delta, "makeDeltaRules, evaluated on rule bodies that mention a same-stratum predicate once, twice, through a temporal literal, next to extensional and built-in atoms, yields one delta rule per positive occurrence of a predicate of the stratum, with exactly that occurrence marked; do-transform rules get none", 1)
-	c.Rule(rC01Prem, "oneStepEvalPremise reads delta-prefixed atoms from the delta store and all others from the full store, and judges negated atoms against the full store", 3)
+	c.Rule(rC01Prem, "oneStepEvalPremise, evaluated with the premise helpers and stores replaced by recorders: a delta-marked atom is looked up in the delta store under its normal name, every other atom and every negated atom in the full store; a temporal literal over a delta-marked atom reads the temporal delta store, any other the temporal store", 5)
 	c.Rule(rC01Neg, "premiseNegAtom, evaluated with a stub store and a stub built-in: a negated built-in holds iff the built-in does not, a negated stored atom iff no stored fact unifies", 1)
 	c.Rule(rC01TX, "each evaluator handles every premise kind its engine accepts", 2)
 	c.Rule(rC01Fld, "clause-to-clause functions keep all four fields of the clause", 2)
@@ -41,6 +42,8 @@ func checkC01(c *core.Ctx) {
 	})
 	clauseFieldCompleteness(c, rC01Fld, []string{"engine.makeSingleDeltaRule", "engine.normalizeRule", "analysis.RewriteClause"}, []string{"Head", "HeadTime", "Premises", "Transform"})
 	strataOrderRule(c, rC01Order)
+	c.Rule(rC01Eval, "(*engine).oneStepEvalClause is read from source and evaluated together with everything below it (oneStepEvalPremise, premiseAtom/NegAtom/Eq/Ineq, functional.EvalAtom/EvalExpr, builtin.Decide, the union-find substitution; only the fact store is a set model) on every clause of a family (one to three premises from a pool of positive, negated, wildcard, repeated-variable, constant-argument and built-in atoms, equalities with constants, variables and function expressions on either side, inequalities; three heads) that is safe in its written order, over three stores: it returns no error, only ground facts, and exactly the head instances under all variable assignments that satisfy the body (a declarative reference that knows no evaluation order); with one atom marked as delta it reads that atom from the delta store and the others from the full store", 1)
+	clauseEvalRule(c, rC01Eval, "semi-naive")
 }
 
 // c01Loop is shared by C01, C05, C17 and C20 (different rule names, same evaluation).
